@@ -20,7 +20,7 @@ RULE = (
 )
 ASSUMPTIONS = [
     "dimension vectors are computed by the free-abelian-group model from the base units' recorded dimensions",
-    "zero magnitudes are excluded where the mathematical result is undefined (divisor, base of a negative power); roots use positive magnitudes",
+    "zero magnitudes are excluded where the mathematical result is undefined (divisor, base of a negative power); a root of a negative magnitude may be refused by the number type (it is checked when answered)",
 ]
 
 C = None
@@ -54,7 +54,9 @@ def strategy(tier):
             a, _ = draw(FREE)
             n = draw(DEG if op == "root" else N)
             mag = draw(POS if op == "root" else (NZ if op == "pow" else MAG))
-            if op == "root" and draw(st.booleans()):
+            if op == "root" and draw(convgen.INT10) < 3:
+                mag = draw(NZ)   # negative radicands: answered or refused, see run_case
+            elif op == "root" and draw(st.booleans()):
                 # exact n-th powers (where a root comes out "round") in all three magnitude types
                 b = draw(st.sampled_from([2, 3, 4, 10]))
                 v = b ** abs(n)
@@ -92,6 +94,8 @@ def enumerate_cases(tier):
                     mag2 = {"t": t, "v": b if t == "int" else (b + 0.5 if t == "float" else str(b) + ".25")}
                     out.append({"op": "root", "a": {"mag": mag2, "terms": terms}, "n": n})
                     out.append({"op": "pow", "a": {"mag": mag2, "terms": terms}, "n": n})
+                    neg = {"t": t, "v": -v if t == "int" else (-float(v) if t == "float" else "-" + str(v))}
+                    out.append({"op": "root", "a": {"mag": neg, "terms": terms}, "n": n})
             for op in ("neg", "pos", "abs"):
                 out.append({"op": op, "a": {"mag": {"t": t, "v": -3 if t == "int" else (-2.5 if t == "float" else "-1.25")}, "terms": terms}, "n": 1})
     return out
@@ -177,12 +181,27 @@ def run_case(case) -> core.Outcome:
                 r = a**n
                 check_result(r, tuple(x * n for x in da), "pow", dec)
             elif op == "root":
-                if n == 0 or Fraction(ma) <= 0:
+                if n == 0 or Fraction(ma) == 0:
                     out.invalid = True
                     return out
                 powered = A**n  # a constructed perfect n-th power
                 q = m.Quantity(ma, powered)
-                r = q.root(n)
+                if Fraction(ma) < 0:
+                    # the root of a negative magnitude is the number arithmetic's to answer or to
+                    # refuse (Decimal refuses, float answers with a complex number); an answer is
+                    # held to the same clauses as any other
+                    out.classes.append("root:negative-radicand")
+                    try:
+                        r = q.root(n)
+                    except (ArithmeticError, ValueError, TypeError) as e:
+                        if core.innermost_frame(e).split(".")[-1] not in ("_pow", "root"):
+                            raise
+                        out.classes.append("root:negative-radicand-refused")
+                        r = None
+                    if r is None:
+                        return out
+                else:
+                    r = q.root(n)
                 check_result(r, da, "root", dec)
                 if isinstance(r, m.Quantity) and r.unit is not A and not _mixed_terms(c, ta):
                     out.fail("C03:root:unit", f"(x**{n}).root({n}) of {A} gives unit {r.unit}")
